@@ -62,6 +62,8 @@ pub fn child(args: &[String]) -> ! {
                     fs_seed: rng.next_u64(),
                     capacity: None,
                     dio_align: None,
+                    rw_modes: false,
+                    io_err: 0.0,
                 };
                 let (mut h, _) = gen_history(&mut rng, &gc);
                 h.push(Op::Crash);
